@@ -158,6 +158,7 @@ package soyhtml
 //@   props C12 C08 C09
 //@   splitreturns
 //@   requires[has-frame;C02] len(s.context) >= 1
+//@   at call (*state).walk#* assert[lets-run-in-their-list-frame;C02] typeis(arg1, *ast.LetValueNode) || typeis(arg1, *ast.LetContentNode) ==> typeis(node, *ast.ListNode)
 //@   at call (*state).walk#0 assume typeis(arg1, *ast.TemplateNode)
 //@   at call (*state).walk#1 assume typeis(arg1, *ast.ListNode)
 //@   at call (*state).walk#3 assume typeis(arg1, *ast.ListNode)
